@@ -1015,6 +1015,9 @@ func (cpu *CPU) Step() (int, bool) {
 		cpu.Cycles += incCycles_regDL_not00[opcode]
 	}
 
+	// the address bus is 24 bits wide: indexed effective addresses wrap to bank $00
+	ea &= 0x00ffffff
+
 	// instruction execution
 	cpu.StepInfo = StepInfo{ea, addr, mode}
 	cpu.instructions[opcode].proc()
